@@ -421,6 +421,9 @@ func (g *fastGenerator) fieldItem(field *protogen.Field, fieldname string, messa
 			g.P("var mapkey ", goTypK)
 			g.P("var mapvalue ", goTypV)
 			g.P(`for iNdEx < postIndex {`)
+			// the records of an entry end where the entry ends: every bounds check below is against the
+			// entry, not the whole input (a key or value must not take its bytes from what follows)
+			g.P(`l := postIndex`)
 
 			g.P(`entryPreIndex := iNdEx`)
 			g.P(`var wire uint64`)
